@@ -749,6 +749,51 @@ func directedPrograms() []directed {
 			acc.Wait()
 			return ""
 		}},
+		{"close-write-during-write", func(c *c24Session, rng *rand.Rand) string {
+			for round := 0; round < 8; round++ {
+				a, b, err := c.connect(round % 2)
+				if err != nil {
+					return "connect: " + err.Error()
+				}
+				var wg sync.WaitGroup
+				wg.Add(3)
+				go func() { // reader on the other side drains until EOF
+					defer wg.Done()
+					buf := make([]byte, 1+rng.Intn(512))
+					b.SetReadDeadline(time.Now().Add(3 * time.Second))
+					total := 0
+					for {
+						n, err := b.Read(buf)
+						total += n
+						if err != nil {
+							c.call(1-round%2, "read", b, "drain", total, err)
+							return
+						}
+					}
+				}()
+				size := minInt(c.s.cfg.Window*4+64, 24<<10)
+				go func() {
+					defer wg.Done()
+					a.SetWriteDeadline(time.Now().Add(3 * time.Second))
+					for i := 0; i < 4; i++ {
+						n, err := a.Write(make([]byte, size))
+						c.call(round%2, "write", a, "racing-close-write", n, err)
+						if err != nil {
+							return
+						}
+					}
+				}()
+				go func() {
+					defer wg.Done()
+					time.Sleep(time.Duration(round*150) * time.Microsecond)
+					c.call(round%2, "close-write", a, "during-write", 0, a.CloseWrite())
+				}()
+				wg.Wait()
+				a.Close()
+				b.Close()
+			}
+			return ""
+		}},
 		{"deadline-set-by-another-goroutine", func(c *c24Session, rng *rand.Rand) string {
 			a, _, err := c.connect(0)
 			if err != nil {
